@@ -638,6 +638,80 @@ def model_arrays(case, c, mode, bl=None):
     return res
 
 
+# ---- the concrete look-ups (Model/SdfCirc.lean, driver `sdfc`): the model receives the circuit dump and the library's pin table,
+# not tables prepared by the harness; besides the arrays the line index of EVERY entry is compared (audit finding 7)
+def tl_table(case, c):
+    tlib = get_tlib(case['tlib'])
+    rows = []
+    for kind in sorted({n.kind for n in c.nodes}):
+        if kind in tlib.cells:
+            rows += [f'{pct(kind)}:{pct(p)}:{v[0]}' for p, v in tlib.cells[kind][1].items()]
+    return ';'.join(rows) or '~'
+
+
+def model_concrete(case, c, mode, bl=None):
+    """-> [(array | 'raise', [look-up per entry])] for io and ic"""
+    from . import circ
+    if bl is None: bl = enc_blocks(case['blocks'])
+    tail = f"{bl} {tl_table(case, c)} {circ.dump_names(c) or '~'} {circ.dump_net(c)}"
+    out = common.run_driver([f'sdfc {mode} io {tail}', f'sdfc {mode} ic {tail}'])
+    L, res = len(c.lines), []
+    for o in out:
+        f = o.split(' ')
+        if len(f) != 2: raise ValueError(f'sdfc answered {o[:200]!r}')
+        if f[0] == 'raise': a = 'raise'
+        else:
+            a = np.zeros((3, L, 2, 2))
+            if f[0] != '~':
+                for item in f[0].split(','):
+                    k, v = item.split('=')
+                    d, l, ip, op = map(int, k.split('.'))
+                    a[d, l, ip, op] = int(v) / 1000.0
+        res.append((a, [] if f[1] == '~' else None if f[1] == '-' else f[1].split(',')))
+    return res
+
+
+def real_looks(case, c):
+    """the line the REAL loops pick for every entry, observed by running each entry alone with values 1 through the real
+    iopaths()/interconnects(): 'r' raise, 's' nothing annotated (warn), else the line index. -> (io list, ic list | None)"""
+    from kyupy import sdf
+    tlib = get_tlib(case['tlib'])
+    def one(f):
+        try:
+            a = f()
+        except Exception:
+            return 'r'
+        ls = sorted({int(i[1]) for i in np.argwhere(a != 0)})
+        return 's' if not ls else str(ls[0]) if len(ls) == 1 else 'many:' + ','.join(map(str, ls))
+    with quiet():
+        df = sdf.parse(case['sdf'])
+        one3 = [1.0, 1.0, 1.0]
+        io = [one(lambda: sdf.DelayFile('x', {name: [sdf.IOPath(e[0], e[1], one3, one3)]}).iopaths(c, tlib))
+              for name, es in df.cells.items() for e in es]
+        ic = None if df._interconnects is None else [
+            one(lambda: sdf.DelayFile('x', {None: [sdf.Interconnect(e[0], e[1], one3, one3)]}).interconnects(c, tlib))
+            for e in df._interconnects]
+    return io, ic
+
+
+def concrete_corr(ck, case, c, mode, io, ic):
+    try:
+        (mio, lio), (mic, lic) = model_concrete(case, c, mode)
+        rio, ric = real_looks(case, c)
+    except Exception as ex:
+        ck.broken_tie('SDF look-up correspondence (Model/SdfCirc.lean)', f'{type(ex).__name__}: {ex}'[:300], inp=case); return
+    for which, r, m in (('iopaths', io, mio), ('interconnects', ic, mic)):
+        if not same(r, m):
+            ck.broken_tie(f'SDF model with concrete look-ups ({which}, start mode {mode})',
+                          f'real {json.dumps(sparse(r))[:300]} != model {json.dumps(sparse(m))[:300]}', inp=case)
+    for which, r, m in (('iopaths', rio, lio), ('interconnects', ric, lic)):
+        ck.hist['look-ups-compared'] += len(r or [])
+        for x in (r or []): ck.hist['look-up:' + ('line' if x.isdigit() else x[:4])] += 1
+        if r != m:
+            ck.broken_tie(f'SDF look-up per entry ({which}): line index chosen by the real loop vs pinLook/icLook',
+                          f'real {r} != model {m}'[:400], inp=case)
+
+
 def same(real, model):
     if isinstance(real, str) or isinstance(model, str):
         return isinstance(real, str) and isinstance(model, str) and real.startswith('raise') and model == 'raise'
@@ -716,6 +790,8 @@ def run_case(ck, case, kind, mode, notes):
             if not same(r, m):
                 ck.broken_tie(f'SDF model correspondence ({which}, start mode {mode})',
                               f'real {json.dumps(sparse(r))[:300]} != model {json.dumps(sparse(m))[:300]}', inp=case)
+    if mio is not None:
+        concrete_corr(ck, case, c, mode, io, ic)
     if mio is not None and notes.get('__text_mut__', 0):
         try:
             text_generated(ck, case, c, mode, notes['__text_mut__'])
